@@ -471,7 +471,11 @@ def judge(sc, incs, broker):
         snap = r['snap']
         nstatic = static_parts if static_parts is not None else snap['nparts']
         last_hi = {}
+        wm_highs = {}          # partition -> high watermarks the consumer was told, in order
         for e in ev:
+            if e[2] == 'watermark':
+                wm_highs.setdefault(e[3], []).append(e[5])
+                continue
             if e[2] in ('task_exc', 'bg_exc') and any('injected' in str(x) for x in e[3:]):
                 continue        # the transient fetch failure we injected surfaces in the (un-awaited) emit coroutine
             if e[2] in ('task_exc', 'bg_exc', 'hang'):
@@ -515,6 +519,15 @@ def judge(sc, incs, broker):
                         V.append(Violation('C09', 'C09.start_position', e[0],
                                            'incarnation %d partition %d: no committed offset, auto.offset.reset=latest, %d messages existed when the consumer started, yet the first range is %d..%d'
                                            % (i, p, snap['high'].get(p, 0), lo, hi), node_op='from_kafka_batched', refreshed=False))
+                        return V
+                    # ... and not later than the end of the log as of the consumer's first look at the partition
+                    # (partition 0 is also queried once by start(), so its placement is the 1st or the 2nd answer):
+                    # what is produced after the consumer has started belongs to it
+                    hs = wm_highs.get(p, [])[:2 if p == 0 else 1]
+                    if reset == 'latest' and hs and lo > max(max(hs), low_now):
+                        V.append(Violation('C09', 'C09.start_position', e[0],
+                                           'incarnation %d partition %d: no committed offset, auto.offset.reset=latest, the log ended at %d when the running consumer first looked, yet the first range is %d..%d (messages produced after the start were skipped)'
+                                           % (i, p, max(hs), lo, hi), node_op='from_kafka_batched', refreshed=False))
                         return V
             last_hi[p] = hi
         # content: what get_message_batch delivered is the log slice
@@ -592,6 +605,16 @@ def judge(sc, incs, broker):
                                    'at the end partition %d has %d messages, every consumer finished, but the committed offset is %d'
                                    % (p, h, c), node_op='from_kafka_batched'))
                 return V
+            if (h > 0 and first is None and not anchored and reset == 'latest' and c_last < 0 and c < 0
+                    and per_inc_sorted and not any(r['fired'].get('fetch_fail') for r in incs)):
+                # 'latest', nothing ever committed, nothing ever delivered: everything produced after the
+                # running consumer first looked at the partition is still owed
+                hs = [e[5] for e in last['res'].events if e[2] == 'watermark' and e[3] == p][:2 if p == 0 else 1]
+                if hs and h > max(max(hs), broker.low.get(p, 0)):
+                    V.append(Violation('C09', 'C09.lost_message', len(last['res'].events) - 1,
+                                       'partition %d (auto.offset.reset=latest, nothing committed): the log ended at %d when the running consumer first looked and holds %d messages now, none was delivered'
+                                       % (p, max(hs), h), node_op='from_kafka_batched'))
+                    return V
             if h > 0 and first is None and anchored and max(c if c >= 0 else 0, broker.low.get(p, 0)) < h:
                 V.append(Violation('C09', 'C09.lost_message', len(last['res'].events) - 1,
                                    'partition %d holds %d messages from offset %d on that were never delivered' % (p, h, max(c, 0)),
